@@ -461,7 +461,7 @@ Definition set_closeRe (i : nat) (rx : cre) (s : session) : session :=
 
 Definition indentedContentFilter (text : str) : Res str :=
   match re_search re_delimitedblocks_indentedContentFilter_0 text with
-  | None => Raise ExAssert
+  | None => Raise ExFilter
   | Some m0 =>
       let first_indent := m_start m0 in
       Ok (join [10] (map (fun line =>
@@ -479,7 +479,7 @@ Definition quoteParagraphContentFilter (text : str) : str :=
 
 Definition macroDefContentFilter (text : str) (m : mres) (e : expand) : M str :=
   match re_search re_delimitedblocks_macroDefContentFilter_0 (grp0 m) with
-  | None => raise ExAssert
+  | None => raise ExFilter
   | Some mm =>
       let name := grp_s mm 1 in
       let text := re_sub re_delimitedblocks_macroDefContentFilter_1 (fun _ => [39; 10]) text in
